@@ -18,7 +18,9 @@ struct Fp {
 	Fp() : v(0) {}
 	Fp(int x) : v(x >= 0 ? (uint64_t)x % P : (P - (uint64_t)(-(long long)x) % P) % P) {}
 	Fp(long long x) : v(x >= 0 ? (uint64_t)x % P : (P - (uint64_t)(-x) % P) % P) {}
-	Fp(double d) { if (d == 0.5) v = (P + 1) / 2; else if (d == (double)(long long)d && fabs(d) < 1e15) v = Fp((long long)d).v; else { fprintf(stderr, "Fp: unsupported literal %g\n", d); abort(); } }
+	Fp(double d) {   // the only non-integer literals of the templates: (T)0.5 and T(PI) (PI stands for the constant 3, see cos/sin below)
+		if (d == 0.5) v = (P + 1) / 2; else if (d > 3.14159 && d < 3.1416) v = 3;
+		else if (d == (double)(long long)d && fabs(d) < 1e15) v = Fp((long long)d).v; else { fprintf(stderr, "Fp: unsupported literal %g\n", d); abort(); } }
 	static Fp raw(uint64_t x) { Fp r; r.v = x % P; return r; }
 };
 inline Fp operator+(Fp a, Fp b) { uint64_t s = a.v + b.v; if (s >= Fp::P) s -= Fp::P; return Fp::raw(s); }
@@ -41,7 +43,12 @@ inline bool operator>(Fp a, Fp b) { return b < a; }
 inline bool operator>=(Fp a, Fp b) { return !(a < b); }
 inline bool operator<=(Fp a, Fp b) { return !(b < a); }
 inline Fp fabs(Fp a) { return a.v <= Fp::P / 2 ? a : -a; }
-inline Fp sqrt(Fp a) { return fpow(a, (Fp::P + 1) / 4); }      // a square root whenever one exists (P = 3 mod 4)
+inline Fp sqrt(Fp a) { return fpow(a, (Fp::P + 1) / 4); }
+// stand-ins for the trigonometric functions (the same ones as AslModel.Fp.trig): the rational parametrisation of the unit
+// circle, so that cos^2 + sin^2 = 1 holds exactly and the axis-angle / rotateE code paths can be executed over the field
+inline Fp cos(Fp x) { return (Fp(1) - x * x) / (Fp(1) + x * x); }
+inline Fp sin(Fp x) { return (Fp(2) * x) / (Fp(1) + x * x); }
+inline Fp acos(Fp w) { return sqrt((Fp(1) - w) / (Fp(1) + w)); }      // a square root whenever one exists (P = 3 mod 4)
 
 #include <asl/Matrix4.h>
 #include <asl/Matrix3.h>
@@ -483,6 +490,16 @@ static std::string step(const Toks& t)
 	if (op == "v3dot" && n == 6) return fs(Vec3_<Fp>(v[0], v[1], v[2]) * Vec3_<Fp>(v[3], v[4], v[5]));
 	if (op == "v3lin" && n == 7) { Vec3_<Fp> a(v[0], v[1], v[2]), b(v[3], v[4], v[5]); return show(a + b * v[6] - b); }
 	if (op == "v3len2" && n == 3) return fs(Vec3_<Fp>(v[0], v[1], v[2]).length2());
+	if (op == "qfaa" && n == 4) return show(Q::fromAxisAngle(Vec3_<Fp>(v[0], v[1], v[2]), v[3]));
+	if (op == "qfaau" && n == 4) return show(Q::fromAxisAngleU(Vec3_<Fp>(v[0], v[1], v[2]), v[3]));
+	if (op == "qfrv" && n == 3) return show(Q::fromAxisAngle(Vec3_<Fp>(v[0], v[1], v[2])));
+	if (op == "qangle" && n == 4) return fs(Q(v[0], v[1], v[2], v[3]).angle());
+	if (op == "qaxang" && n == 4) return show(Q(v[0], v[1], v[2], v[3]).axisAngle());
+	if (op == "qaart" && n == 4) return show(Q::fromAxisAngle(Q(v[0], v[1], v[2], v[3]).axisAngle()).matrix());
+	if (op == "m4rotaa" && n == 4) return show(M4::rotate(Vec3_<Fp>(v[0], v[1], v[2]), v[3]));
+	if (op == "m4rotv" && n == 3) return show(M4::rotate(Vec3_<Fp>(v[0], v[1], v[2])));
+	if (op == "m4axang" && n == 16) return show(m4of(v).axisAngle());
+	if (op == "m4rote" && n == 6) return show(M4::rotateE(Vec3_<Fp>(v[0], v[1], v[2]), (int)(v[3].v % 3), (int)(v[4].v % 3), (int)(v[5].v % 3)));
 	if (op == "qmat" && n == 4) return show(Q(v[0], v[1], v[2], v[3]).matrix());
 	if (op == "qmul" && n == 8) return show(Q(v[0], v[1], v[2], v[3]) ^ Q(v[4], v[5], v[6], v[7]));
 	if (op == "qconj" && n == 4) return show(Q(v[0], v[1], v[2], v[3]).conj());
